@@ -90,6 +90,12 @@ def run_textfile_impl(case, scratch):
                 if op[0] == "w":
                     w.write(op[1])
                     w.flush()
+                elif op[0] == "stop":
+                    src.stop()
+                    await vloop.settle(loop)
+                elif op[0] == "start":
+                    src.start()
+                    await vloop.settle(loop)
                 else:
                     await vloop.advance(0.5, loop)
                 snaps.append(list(got))
@@ -113,10 +119,23 @@ def reads_of(case):
     reads.append(pending)   # read at start()
     pending = ""
     per_op = []
+    stopped = False
     for op in case["ops"]:
         if op[0] == "w":
             pending += op[1]
             per_op.append(None)
+        elif op[0] == "stop":
+            stopped = True
+            per_op.append(None)
+        elif op[0] == "start":
+            # the generator always lets a poll interval pass between stop and start, so the old loop has exited:
+            # start() begins a new one, which reads at once
+            stopped = False
+            reads.append(pending)
+            per_op.append(len(reads) - 1)
+            pending = ""
+        elif stopped:
+            per_op.append(None)         # nobody polls a stopped source
         else:
             reads.append(pending)
             per_op.append(len(reads) - 1)
@@ -136,7 +155,14 @@ def run_filenames_impl(case, scratch):
     async def main(loop):
         src = Stream.filenames(d if case["style"] == "dir" else os.path.join(d, "*"), poll_interval=0.5,
                                asynchronous=True, loop=IOLoop.current())
-        src.sink(got.append)
+        state = {"failed": False}
+
+        def consume(path):
+            got.append(path)
+            if case.get("fail_on") is not None and not state["failed"] and int(os.path.basename(path)[1:]) == case["fail_on"]:
+                state["failed"] = True
+                raise ValueError("consumer failed on this path")
+        src.sink(consume)
         src.start()
         await vloop.settle(loop)
         snaps.append(list(got))
@@ -144,6 +170,12 @@ def run_filenames_impl(case, scratch):
             if op[0] == "c":
                 for n in op[1]:
                     open(os.path.join(d, "f%03d" % n), "w").close()
+            elif op[0] == "stop":
+                src.stop()
+                await vloop.settle(loop)
+            elif op[0] == "start":
+                src.start()
+                await vloop.settle(loop)
             else:
                 await vloop.advance(0.5, loop)
             snaps.append(list(got))
@@ -171,6 +203,11 @@ def gen_text_case(rng):
         if r < 0.1:
             ops.append(["p"])       # an empty read in between
     ops.append(["p"])
+    if rng.random() < 0.3 and len(ops) > 3:
+        # stop the source somewhere, keep writing while it is stopped, let a poll interval pass, start it again
+        i = rng.randrange(1, len(ops) - 1)
+        j = rng.randrange(i, len(ops) - 1)
+        ops = ops[:i] + [["stop"]] + [o for o in ops[i:j] if o[0] == "w"] + [["p"], ["start"]] + ops[j:]
     return {"kind": "textfile", "delim": d, "from_end": rng.random() < 0.4, "pre": pre, "ops": ops}
 
 
@@ -187,7 +224,13 @@ def gen_files_case(rng):
     ops.append(["p"])
     if rng.random() < 0.3:
         ops.append(["p"])
-    return {"kind": "filenames", "style": rng.choice(["dir", "glob"]), "pre": pre, "ops": ops}
+    case = {"kind": "filenames", "style": rng.choice(["dir", "glob"]), "pre": pre, "ops": ops}
+    if rng.random() < 0.3:
+        names = sorted(set(pre) | {n for o in ops if o[0] == "c" for n in o[1]})
+        case["fail_on"] = rng.choice(names)
+        i = rng.randrange(0, len(ops))
+        case["ops"] = ops[:i] + [["stop"], ["p"], ["start"]] + ops[i:] + [["stop"], ["p"], ["start"], ["p"]]
+    return case
 
 
 def gen_split_case(rng):
@@ -206,15 +249,52 @@ def model_lines(case):
         return [{"op": "reset", "model": "textfile", "delim": case["delim"]}] + [{"op": "chunk", "s": r} for r in reads]
     if case["kind"] == "filenames":
         lines = [{"op": "reset", "model": "filenames"}]
-        present = list(case["pre"])
-        lines.append({"op": "listing", "l": list(present)})
-        for op in case["ops"]:
-            if op[0] == "c":
-                present += op[1]
-            else:
-                lines.append({"op": "listing", "l": list(present)})
+        for _i, pres, fail in file_polls(case):
+            line = {"op": "listing", "l": sorted(pres)}
+            if fail is not None:
+                line["fail_on"] = fail
+            lines.append(line)
         return lines
     raise ValueError(case["kind"])
+
+
+def file_polls(case):
+    """The polls the source performs: (index of the op after which it is observed, files present, failing path or None).
+    A consumer that raises ends the polling loop; it only comes back with stop() + start() (start() alone is a no-op
+    on a source that is not stopped)."""
+    present = set(case["pre"])
+    polls = []
+    alive, stopped, failed = True, False, False
+    delivered = set()
+
+    def poll(i):
+        nonlocal alive, failed
+        new = sorted(present - delivered)
+        fail = None
+        if case.get("fail_on") is not None and not failed and case["fail_on"] in new:
+            fail = case["fail_on"]
+            new = new[:new.index(fail) + 1]
+            failed = True
+            alive = False
+        delivered.update(new)
+        polls.append((i, set(present), fail))
+    poll(-1)
+    for i, op in enumerate(case["ops"]):
+        if op[0] == "c":
+            present |= set(op[1])
+        elif op[0] == "stop":
+            stopped = True
+            alive = False if not alive else alive
+        elif op[0] == "start":
+            if stopped:
+                stopped = False
+                alive = True
+                poll(i)
+        elif alive and not stopped:
+            poll(i)
+        elif alive and stopped:
+            alive = False       # the sleeping loop wakes up, sees `stopped` and exits
+    return polls
 
 
 def check_case(ctx, case, answers, scratch):
@@ -267,22 +347,18 @@ def check_case(ctx, case, answers, scratch):
         elif kind == "filenames":
             snaps = run_filenames_impl(case, sub)
             # oracle: batch added at each poll is sorted and = new files; no duplicates overall
-            present = set(case["pre"])
             seen = []
             err = None
             prev = []
-            polls = [(-1, set(present))]
-            for i, op in enumerate(case["ops"]):
-                if op[0] == "c":
-                    present |= set(op[1])
-                else:
-                    polls.append((i, set(present)))
-            for i, pres in polls:
+            polls = file_polls(case)
+            for i, pres, fail in polls:
                 cur = snaps[i + 1]
                 batch = cur[len(prev):]
                 if cur[:len(prev)] != prev:
                     err = "history rewritten"
                 want = sorted(pres - set(seen))
+                if fail is not None:
+                    want = want[:want.index(fail) + 1]      # the consumer raised on `fail`: the rest waits for the next poll
                 if batch != want:
                     err = "poll emitted %r, new paths sorted are %r" % (batch, want)
                     break
@@ -303,6 +379,8 @@ def check_case(ctx, case, answers, scratch):
 
 
 CORPUS = [
+    {"kind": "textfile", "delim": "\n", "from_end": True, "pre": "old\n", "ops": [["w", "r1\npar"], ["p"], ["stop"], ["w", "tial\nr3\n"], ["p"], ["start"], ["w", "r4\n"], ["p"]]},
+    {"kind": "filenames", "style": "dir", "pre": [1, 2, 3], "fail_on": 2, "ops": [["p"], ["stop"], ["p"], ["start"], ["c", [4]], ["p"]]},
     {"kind": "textfile", "delim": "aa", "from_end": False, "pre": "", "ops": [["w", "xa"], ["p"], ["w", "a"], ["p"], ["w", "yaaa"], ["p"], ["p"], ["w", "az"], ["p"]]},
     {"kind": "textfile", "delim": "\n", "from_end": True, "pre": "old\nhalf", "ops": [["w", "x\ny"], ["p"], ["w", "\n"], ["p"]]},
     {"kind": "textfile", "delim": "ab", "from_end": False, "pre": "ca", "ops": [["w", "b"], ["w", "a"], ["p"], ["w", "bab"], ["p"]]},
